@@ -657,11 +657,8 @@ func (c *Client) popNonce(ctx context.Context, url string) (string, error) {
 		}
 		return v, err
 	}
-	var nonce string
-	for nonce = range c.nonces {
-		delete(c.nonces, nonce)
-		break
-	}
+	nonce := verifPickNonce(c.nonces)
+	delete(c.nonces, nonce)
 	return nonce, nil
 }
 
